@@ -74,7 +74,7 @@ package s2
 
 //@ func NewEdgeCrosser(a, b Point) *EdgeCrosser
 //@   fpcmp
-//@   ensures [inv] vcCrosserInv(result) && vcSame(result.a, a) && vcSame(result.b, b) && result.acb == 0
+//@   ensures [inv] vcCrosserInv(result) && vcSame(result.a, a) && vcSame(result.b, b) && result.acb == 0 && vcSame(result.c, Point{})
 //@   ensures [fresh] vcFresh(result)
 
 //@ func (e *EdgeCrosser) RestartAt(c Point)
